@@ -260,3 +260,181 @@ func mentionsType(info *types.Info, e ast.Expr, tn *types.TypeName) bool {
 	})
 	return found
 }
+
+func init() {
+	register(&Obligation{ID: "C01.c", Props: []string{"C01", "C02", "C12"}, Template: "value-identity",
+		Desc: "handleCheckpointBarrier: the DKV checkpoint is taken for the in-progress checkpoint's id, and the completion report carries that id, the operator's own id and key-group range, and the URI returned by the checkpoint just taken",
+		Run: func(r *Run) {
+			f := r.P.Func("workers/operator", "(*Operator).handleCheckpointBarrier")
+			info := f.Pkg.TypesInfo
+			ckpt := r.P.FuncObj("dkv", "(*DB).Checkpoint")
+			ckF := r.P.Field("workers/operator", "Operator", "checkpoint")
+			idF := r.P.Field("workers/operator", "checkpoint", "checkpointID")
+			opID := r.P.Field("workers/operator", "Operator", "id")
+			kgr := r.P.Field("workers/operator", "Operator", "keyGroupRange")
+			uriF := r.P.Field("dkv/recovery", "CheckpointHandle", "URI")
+			isCkID := func(e ast.Expr) bool {
+				sel, ok := ast.Unparen(e).(*ast.SelectorExpr)
+				return ok && prog.SelField(info, sel) == idF && prog.SelField(info, sel.X) == ckF
+			}
+			var handle types.Object
+			ast.Inspect(f.Decl.Body, func(nd ast.Node) bool {
+				switch x := nd.(type) {
+				case *ast.CallExpr:
+					if r.P.CalleeFunc(info, x) == ckpt {
+						r.Site(x.Pos(), "db.Checkpoint argument")
+						if len(x.Args) != 1 || !isCkID(x.Args[0]) {
+							r.Fail(f.Name()+":checkpoint-id-arg", x.Pos(), nil, "the DKV checkpoint is not taken under the in-progress checkpoint's id (o.checkpoint.checkpointID): the job could not match it with the barrier it sent")
+						}
+					}
+				case *ast.AssignStmt:
+					if len(x.Rhs) == 1 && len(x.Lhs) == 2 {
+						if outer, ok := ast.Unparen(x.Rhs[0]).(*ast.CallExpr); ok {
+							if inner, ok := ast.Unparen(outer.Fun).(*ast.CallExpr); ok && r.P.CalleeFunc(info, inner) == ckpt {
+								handle = prog.IdentObj(info, x.Lhs[0])
+							}
+						}
+					}
+				}
+				return true
+			})
+			ocT := r.P.TypeName("proto/snapshotpb", "OperatorCheckpoint")
+			found := false
+			ast.Inspect(f.Decl.Body, func(nd ast.Node) bool {
+				cl, ok := nd.(*ast.CompositeLit)
+				if !ok || info.TypeOf(cl) != ocT.Type() {
+					return true
+				}
+				found = true
+				r.Site(cl.Pos(), "completion report fields")
+				got := map[string]ast.Expr{}
+				for _, el := range cl.Elts {
+					if kv, ok := el.(*ast.KeyValueExpr); ok {
+						got[kv.Key.(*ast.Ident).Name] = kv.Value
+					}
+				}
+				if e, ok := got["CheckpointId"]; !ok || !isCkID(e) {
+					r.Fail(f.Name()+":report-id", cl.Pos(), nil, "the completion report does not carry the in-progress checkpoint's id")
+				}
+				if e, ok := got["OperatorId"]; !ok || prog.SelField(info, e) != opID {
+					r.Fail(f.Name()+":report-operator", cl.Pos(), nil, "the completion report does not carry this operator's id")
+				}
+				okURI := false
+				if e, ok := got["DkvFileUri"]; ok {
+					if sel, ok := ast.Unparen(e).(*ast.SelectorExpr); ok && prog.SelField(info, sel) == uriF && handle != nil && prog.IdentObj(info, sel.X) == handle {
+						okURI = true
+					}
+				}
+				if !okURI {
+					r.Fail(f.Name()+":report-uri", cl.Pos(), nil, "the completion report's DkvFileUri is not the URI of the checkpoint handle just produced")
+				}
+				okRange := 0
+				if e, ok := got["KeyGroupRange"]; ok {
+					ast.Inspect(e, func(m ast.Node) bool {
+						if kv, ok := m.(*ast.KeyValueExpr); ok {
+							name := kv.Key.(*ast.Ident).Name
+							v := stripConv(info, kv.Value)
+							if sel, ok := ast.Unparen(v).(*ast.SelectorExpr); ok && prog.SelField(info, sel.X) == kgr && sel.Sel.Name == name {
+								okRange++
+							}
+						}
+						return true
+					})
+				}
+				if okRange != 2 {
+					r.Fail(f.Name()+":report-range", cl.Pos(), nil, "the completion report's key-group range is not the operator's own {Start, End}: on restore the checkpoint would be handed to the wrong operators")
+				}
+				return true
+			})
+			if !found {
+				r.Fail(f.Name()+":no-report", f.Decl.Pos(), nil, "no OperatorCheckpoint completion report is built")
+			}
+		}})
+
+	register(&Obligation{ID: "C01.g", Props: []string{"C01", "C13", "C16"}, Template: "value-identity",
+		Desc: "jobs.(*Job).start reads the current checkpoint once and uses that same value for Assembly.Deploy (operator state) and for the source checkpoint given to SourceSplitter.Start (source positions)",
+		Run: func(r *Run) {
+			f := r.P.Func("jobs", "(*Job).start")
+			info := f.Pkg.TypesInfo
+			cur := r.P.FuncObj("storage/snapshots", "(*Store).CurrentCheckpoint")
+			deploy := r.P.FuncObj("jobs", "(*Assembly).Deploy")
+			startFn := r.P.FuncObj("connectors", "SourceSplitter.Start")
+			n := 0
+			var ck types.Object
+			ast.Inspect(f.Decl.Body, func(nd ast.Node) bool {
+				switch x := nd.(type) {
+				case *ast.CallExpr:
+					if r.P.CalleeFunc(info, x) == cur {
+						n++
+					}
+				case *ast.AssignStmt:
+					if len(x.Rhs) == 1 && len(x.Lhs) == 1 {
+						if call, ok := ast.Unparen(x.Rhs[0]).(*ast.CallExpr); ok && r.P.CalleeFunc(info, call) == cur {
+							ck = prog.IdentObj(info, x.Lhs[0])
+						}
+					}
+				}
+				return true
+			})
+			r.Site(f.Decl.Pos(), "Job.start: one CurrentCheckpoint() result")
+			if n != 1 || ck == nil {
+				r.Fail(f.Name()+":single-read", f.Decl.Pos(), nil, "Job.start must read the current checkpoint exactly once (found %d reads): two reads can straddle a publication, restoring operator state and source positions from different checkpoints", n)
+				return
+			}
+			uses := func(e ast.Node) bool {
+				found := false
+				ast.Inspect(e, func(m ast.Node) bool {
+					if id, ok := m.(*ast.Ident); ok && info.Uses[id] == ck {
+						found = true
+					}
+					return true
+				})
+				return found
+			}
+			okDeploy, okStart := false, false
+			ast.Inspect(f.Decl.Body, func(nd ast.Node) bool {
+				call, ok := nd.(*ast.CallExpr)
+				if !ok {
+					return true
+				}
+				switch r.P.CalleeFunc(info, call) {
+				case deploy:
+					r.Site(call.Pos(), "Deploy checkpoint argument")
+					if len(call.Args) == 2 && prog.IdentObj(info, call.Args[1]) == ck {
+						okDeploy = true
+					}
+				case startFn:
+					r.Site(call.Pos(), "SourceSplitter.Start checkpoint argument")
+					if len(call.Args) == 1 {
+						if o := prog.IdentObj(info, call.Args[0]); o != nil {
+							// every definition of that variable derives from ck
+							derives, any := true, false
+							ast.Inspect(f.Decl.Body, func(m ast.Node) bool {
+								if as, ok := m.(*ast.AssignStmt); ok {
+									for i, l := range as.Lhs {
+										if prog.IdentObj(info, l) == o && i < len(as.Rhs) {
+											any = true
+											if !uses(as.Rhs[i]) {
+												derives = false
+											}
+										}
+									}
+								}
+								return true
+							})
+							okStart = any && derives
+						}
+					}
+				}
+				return true
+			})
+			if !okDeploy {
+				r.Fail(f.Name()+":deploy-arg", f.Decl.Pos(), nil, "Assembly.Deploy is not given the checkpoint read at the start of Job.start")
+			}
+			if !okStart {
+				r.Fail(f.Name()+":splitter-arg", f.Decl.Pos(), nil, "SourceSplitter.Start is not given a source checkpoint taken from the same job checkpoint that was deployed")
+			}
+			// Deploy happens (successfully) before the splitter starts assigning splits
+			r.errChecked(f.Decl, f.Name(), "assembly.Deploy", "sourceSplitter.Start", callTo(deploy), callTo(startFn))
+		}})
+}
